@@ -210,6 +210,14 @@ def coq_tables(T):
 
 def main():
     os.makedirs(GEN, exist_ok=True)
+    try:
+        import extract_api
+        extract_api.main()
+    except Exception as e:
+        # the API shape translator fails closed on its own (C15-C17 report it); a stale ApiShape.v must not survive silently
+        write_if_changed(GEN + "/ApiShape.v", "(* translator failed closed: %s *)\nFrom MoSql Require Import Model.Api.\nDefinition parse_shape : list effect := nil.\n"
+                         "Definition entry_points : list (String.string * String.string * bool) := nil.\nDefinition all_locked : bool := false.\n"
+                         "Definition cache_keyed_by_both : bool := false.\nDefinition fresh_default_null : bool := false.\nDefinition formatter_writes : list String.string := nil.\n" % str(e).replace("*", "x")[:300])
     T = build_l1()
     changed = write_if_changed(GEN + "/Tables.v", coq_tables(T))
     write_if_changed(GEN + "/tables.json", json.dumps(T, indent=1, sort_keys=True, default=str))
